@@ -7,9 +7,17 @@ for l in open("/verif/KNOWN_FINDINGS.txt"):
     if m:
         rows.append(m.groups())
 rows.sort(key=lambda r: r[0])
+# open findings (recorded, not repaired): grouped by property and text
+openf = {}
+for l in open("/verif/KNOWN_FINDINGS.txt"):
+    m = re.match(r"finding:\s+property=(\S+)\s+key=(\S+)\s+(.*)", l.strip())
+    if m:
+        openf.setdefault((m.group(1), m.group(3)), []).append(m.group(2))
 tab = ["| property | fix commit | what failed on the pinned tree (failing input / key of the check) |", "|---|---|---|"]
 for p, c, t in rows:
     tab.append("| %s | %s | %s |" % (p, c, t.replace("|", "\\|")))
+for (p, t), keys in sorted(openf.items()):
+    tab.append("| %s | OPEN (known finding, keys: %s) | %s |" % (p, ", ".join("`%s`" % k for k in keys), t.replace("|", "\\|")))
 s = open("/verif/DESIGN.md").read()
 a, b = "<!-- FINDINGS:BEGIN -->", "<!-- FINDINGS:END -->"
 s = s[:s.index(a) + len(a)] + "\n" + "\n".join(tab) + "\n" + s[s.index(b):]
